@@ -27,7 +27,8 @@ TRUSTED = ["hash-seed independence of CPython itself is observed (subprocesses u
            "immutability of the input data/formula is checked by deep snapshots on the implementation (the functional model cannot mutate them)"]
 ASSUMPTIONS = ["results are compared as values (matrix bytes, column names, drop sets); dictionary key ORDER inside a spec's state may differ between seeds"]
 
-FORMULAS = ["center(a) + A", "scale(b) + a:A + B", "poly(a, 2) + C(A, contr.sum)", "a + b + A:B"]
+FORMULAS = ["center(a) + A", "scale(b) + a:A + B", "poly(a, 2) + C(A, contr.sum)", "a + b + A:B", "bs(a, knots=KN, degree=2, extrapolation='extend') + b"]
+CONTEXT = {"KN": [2.0, 4.0], "unused": {"k": [1, 2, 3]}}          # user objects reachable from the formula: never written to
 
 
 def _frames():
@@ -67,6 +68,8 @@ def _history(ctx: Ctx, rng):
     frames = _frames()
     snap = [f.copy(deep=True) for f in frames]
     specs, calls, ops_lit, changed_lit, ops_d = [], [], [], [], []
+    import copy
+    context = copy.deepcopy(CONTEXT)
     formulas = [Formula(f) for f in FORMULAS]
     fsnap = [repr(f) for f in formulas]
     for step in range(rng.randint(2, 8)):
@@ -86,7 +89,7 @@ def _history(ctx: Ctx, rng):
             s = rng.randrange(len(specs))
             d = rng.randrange(len(frames))
             try:
-                mm = specs[s].get_model_matrix(frames[d])
+                mm = specs[s].get_model_matrix(frames[d], context=context)
             except Exception as e:
                 ctx.fail(f"history step {ops_d + [('build', s, d)]}: {type(e).__name__}: {e}", {"kind": "history", "ops": ops_d})
                 return
@@ -103,12 +106,14 @@ def _history(ctx: Ctx, rng):
     # repeat every call: bit-identical
     for s, d, key in calls:
         ctx.oracle_runs += 1
-        again = _matrix_key(specs[s].get_model_matrix(frames[d]))
+        again = _matrix_key(specs[s].get_model_matrix(frames[d], context=context))
         if again != key:
             ctx.fail(f"repeating spec {s} on frame {d} at the end of the history gives a different result", {"kind": "history", "ops": ops_d})
     for f, s_ in zip(frames, snap):
         if not f.equals(s_) or list(f.dtypes) != list(s_.dtypes):
             ctx.fail("a build mutated the input data frame", {"kind": "history", "ops": ops_d})
+    if context != CONTEXT:
+        ctx.fail(f"a build wrote to an object of the caller's context: {context} (was {CONTEXT})", {"kind": "history", "ops": ops_d})
     if [repr(f) for f in formulas] != fsnap:
         ctx.fail("a build mutated a formula", {"kind": "history", "ops": ops_d})
     nb = sum(1 for o in ops_d if o[0] == "build")
